@@ -33,7 +33,10 @@ Inductive qres := QOk (xs : list item) (ps : list (nat * (Z * Z))) | QErr | QHan
 
 Inductive case :=
 | KScript (srcs : list srcspec) (f : option flt) (p : posspec) (ops : list cop) (obs : list cobs)
-| KQuery (srcs : list srcspec) (f : option flt) (p : posspec) (offs : Z) (limit : nat) (res : qres).
+| KQuery (srcs : list srcspec) (f : option flt) (p : posspec) (offs : Z) (limit : nat) (res : qres)
+(* a request over n matching partitions of which the journal of the one with index `failed` (if < n) cannot be opened;
+   refused: the request ended with an error *)
+| KOpen (n failed : nat) (refused : bool).
 
 Definition ev_eqb (a b : ev) : bool := (fst a =? fst b) && Nat.eqb (snd a) (snd b).
 Definition item_eqb (a b : item) : bool := ev_eqb (fst a) (fst b) && Nat.eqb (snd a) (snd b).
@@ -76,4 +79,6 @@ Definition check (c : case) : bool :=
   match c with
   | KScript srcs f p ops obs => list_eqb cobs_eqb (model_script srcs f p ops) obs
   | KQuery srcs f p offs limit res => qres_eqb (model_query srcs f p offs limit) res
+  | KOpen n failed refused =>
+      Bool.eqb (match get_journals_o (fun i => negb (Nat.eqb i failed)) merge_limit (seq 0 n) with None => true | Some _ => false end) refused
   end.
